@@ -217,7 +217,7 @@ func run(rp *explore.Report, tier string) {
 }
 
 func init() {
-	reg.Register(&reg.Harness{Property: "C05", Name: "c05/batch", Level: "model_checking", Run: run,
+	reg.Register(&reg.Harness{Property: "C05", Name: "c05/batch", Level: "model_checking", Bounds: [2]int{3, 4}, Run: run,
 		Item: func(name string) *explore.Item { return item(parse(name)) },
 		Rule: "items = callers K x shard function x MaxSize x canceller thread x concurrency limiter size x batch-function outcome (explorer choice: ok/error/panic/short); all interleavings incl. early firings of the virtual wait-interval and max-duration timers within the deviation bound, on the real batch.Func.Invoke; non-trivial = K>1 concurrent callers"})
 }
